@@ -1,6 +1,347 @@
+//! C05 — sketch of a union is the position-wise join; SetSketch merge is exact (model-based monitor)
 use crate::common::*;
+use crate::gen::*;
+use fnv::FnvHasher;
+use num::{Bounded, FromPrimitive, Integer, ToPrimitive};
+use probminhash::setsketcher::{SetSketchParams, SetSketcher};
+use probminhash::superminhasher::SuperMinHash;
+use rand::Rng as _;
+use rayon::prelude::*;
+use serde_json::{json, Value};
+use std::collections::HashMap;
+
+type Sk<I> = SetSketcher<I, u64, FnvHasher>;
+
+trait Reg: Integer + ToPrimitive + FromPrimitive + Bounded + Copy + Clone + std::fmt::Debug + Send + Sync + 'static {
+    const NAME: &'static str;
+}
+impl Reg for u16 {
+    const NAME: &'static str = "u16";
+}
+impl Reg for u32 {
+    const NAME: &'static str = "u32";
+}
+
+fn regs<I: Reg>(s: &Sk<I>) -> Vec<u64> {
+    s.get_signature().iter().map(|v| v.to_u64().unwrap()).collect()
+}
+
+struct Hist {
+    ops: Vec<Value>,
+    nops: u64,
+    fail: Option<(String, String)>,
+}
+
+#[derive(Clone, Copy, Debug)]
+struct P {
+    b: f64,
+    m: u64,
+    a: f64,
+    q: u64,
+}
+
+fn params_of(p: P) -> SetSketchParams {
+    SetSketchParams::new(p.b, p.m, p.a, p.q)
+}
+
+/// observables of a sketcher that a refused merge must leave unchanged
+fn observables<I: Reg>(s: &Sk<I>) -> (Vec<u64>, i64, u64, u64) {
+    (regs(s), s.get_low_sketch(), s.get_nb_overflow(), s.get_cardinal_stats().0.to_bits())
+}
+
+fn history<I: Reg>(p: P, seed: u64, len: usize, maxitems: usize) -> Hist {
+    let mut rng = rng_from(seed);
+    let m = p.m as usize;
+    let nsk = rng.random_range(2..=5);
+    let mut sks: Vec<Sk<I>> = (0..nsk).map(|_| Sk::<I>::new(params_of(p), Default::default())).collect();
+    let mut model: Vec<Vec<u64>> = vec![vec![0u64; m]; nsk];
+    let mut cache: HashMap<u64, Vec<u64>> = HashMap::new();
+    let universe = fresh_ids(&mut rng, maxitems, 0);
+    let mut h = Hist { ops: vec![], nops: 0, fail: None };
+    let single = |cache: &mut HashMap<u64, Vec<u64>>, d: u64| -> Vec<u64> {
+        cache
+            .entry(d)
+            .or_insert_with(|| {
+                let mut s = Sk::<I>::new(params_of(p), Default::default());
+                s.sketch(&d).unwrap();
+                regs(&s)
+            })
+            .clone()
+    };
+    for step in 0..len {
+        let i = rng.random_range(0..nsk);
+        let choice = rng.random_range(0..100);
+        if choice < 55 {
+            // stream a chunk of items (duplicates allowed) into sketcher i
+            let k = match rng.random_range(0..4) {
+                0 => 1,
+                1 => rng.random_range(1..5),
+                _ => rng.random_range(1..(maxitems / 4).max(2)),
+            };
+            let items: Vec<u64> = (0..k).map(|_| universe[rng.random_range(0..universe.len())]).collect();
+            if rng.random_range(0..2) == 0 {
+                sks[i].sketch_slice(&items).unwrap();
+            } else {
+                for d in &items {
+                    sks[i].sketch(d).unwrap();
+                }
+            }
+            for d in &items {
+                let s = single(&mut cache, *d);
+                for pp in 0..m {
+                    if s[pp] > model[i][pp] {
+                        model[i][pp] = s[pp];
+                    }
+                }
+            }
+            if h.ops.len() < 30 {
+                h.ops.push(json!(["sketch", i, k]));
+            }
+        } else if choice < 85 {
+            // merge j into i (j may equal a sketcher with the same content: idempotence; empty sides happen naturally)
+            let j = rng.random_range(0..nsk);
+            if i == j {
+                continue;
+            }
+            let (a, b) = if i < j {
+                let (l, r) = sks.split_at_mut(j);
+                (&mut l[i], &r[0])
+            } else {
+                let (l, r) = sks.split_at_mut(i);
+                (&mut r[0], &l[j])
+            };
+            let res = a.merge(b);
+            if res.is_err() {
+                h.fail = Some(("C05/merge-refused".into(), format!("step {}: merge between sketchers with identical parameters was refused", step)));
+                return h;
+            }
+            let mj = model[j].clone();
+            for pp in 0..m {
+                if mj[pp] > model[i][pp] {
+                    model[i][pp] = mj[pp];
+                }
+            }
+            if h.ops.len() < 30 {
+                h.ops.push(json!(["merge", i, j]));
+            }
+        } else {
+            // refused merge: other differs in exactly one parameter
+            let mut q = p;
+            let which = rng.random_range(0..4);
+            let rel = [1e-12, 1e-9, 1e-6, 1e-3, 0.5][rng.random_range(0..5)];
+            match which {
+                0 => q.m = if rng.random_range(0..2) == 0 { p.m + 1 } else { p.m * 2 },
+                1 => q.q = if rng.random_range(0..2) == 0 { p.q + 1 } else { p.q + 100 },
+                2 => q.a = p.a * (1. + rel),
+                _ => q.b = p.b * (1. + rel),
+            }
+            let mut other = Sk::<I>::new(params_of(q), Default::default());
+            for _ in 0..rng.random_range(0..20) {
+                other.sketch(&universe[rng.random_range(0..universe.len())]).unwrap();
+            }
+            let before = observables(&sks[i]);
+            let res = sks[i].merge(&other);
+            let after = observables(&sks[i]);
+            h.nops += 1;
+            let differs = q.m != p.m || q.q != p.q || (q.a - p.a).abs() / p.a >= 1e-12 * 0.999 || (q.b - p.b).abs() / p.b >= 1e-12 * 0.999;
+            if differs {
+                if res.is_ok() {
+                    h.fail = Some(("C05/mismatch-accepted".into(), format!("step {}: merge accepted although parameters differ: receiver {:?}, other {:?}", step, p, q)));
+                    return h;
+                }
+                if before != after {
+                    h.fail = Some(("C05/refused-merge-mutates".into(), format!("step {}: refused merge changed the receiver (registers/low/overflow/cardinality): {:?} vs {:?}", step, p, q)));
+                    return h;
+                }
+            }
+            if h.ops.len() < 30 {
+                h.ops.push(json!(["refused_merge", i, which]));
+            }
+            continue;
+        }
+        // observe after every operation
+        h.nops += 1;
+        let r = regs(&sks[i]);
+        if r != model[i] {
+            let pp = (0..m).find(|&x| r[x] != model[i][x]).unwrap();
+            h.fail = Some(("C05/not-the-join".into(), format!("step {}: register {} of sketcher {} is {} but the position-wise maximum over the single-item sketches of everything it has seen is {}", step, pp, i, r[pp], model[i][pp])));
+            return h;
+        }
+        let low = sks[i].get_low_sketch();
+        let mn = *r.iter().min().unwrap() as i64;
+        if low > mn {
+            h.fail = Some(("C05/low-above-min".into(), format!("step {}: get_low_sketch() = {} exceeds the true minimum register {}", step, low, mn)));
+            return h;
+        }
+    }
+    // commutativity / associativity at the end: merge everything in two different orders into fresh sketchers
+    let mut order: Vec<usize> = (0..nsk).collect();
+    let mut fin: Vec<Vec<u64>> = Vec::new();
+    for _ in 0..2 {
+        shuffle(&mut order, &mut rng);
+        let mut acc = Sk::<I>::new(params_of(p), Default::default());
+        for &j in &order {
+            acc.merge(&sks[j]).unwrap();
+            h.nops += 1;
+        }
+        // idempotence
+        let before = regs(&acc);
+        acc.merge(&sks[order[0]]).unwrap();
+        if regs(&acc) != before {
+            h.fail = Some(("C05/not-idempotent".into(), "merging an already merged sketch again changed the registers".into()));
+            return h;
+        }
+        fin.push(before);
+    }
+    if fin[0] != fin[1] {
+        h.fail = Some(("C05/merge-order".into(), "merging the same sketches in two different orders gives different registers".into()));
+        return h;
+    }
+    let mut all = vec![0u64; m];
+    for mm in &model {
+        for pp in 0..m {
+            all[pp] = all[pp].max(mm[pp]);
+        }
+    }
+    if fin[0] != all {
+        h.fail = Some(("C05/not-the-join".into(), "merge of all sketchers differs from the join of the single-item sketches of the union".into()));
+    }
+    h
+}
+
+/// SuperMinHash: sketch == position-wise minimum of single item sketches, after every chunk
+fn smh_join<F: num::Float + rand_distr::uniform::SampleUniform + std::fmt::Debug + 'static>(m: usize, seed: u64, n: usize) -> (u64, Option<(String, String)>) {
+    let mut rng = rng_from(seed);
+    let ids = fresh_ids(&mut rng, n, 0);
+    let mut sk = SuperMinHash::<F, u64, FnvHasher>::new(m, Default::default());
+    let mut model = vec![f64::INFINITY; m];
+    let mut nops = 0;
+    let mut pos = 0;
+    while pos < n {
+        let k = rng.random_range(1..=(n - pos).min(64));
+        let mut chunk: Vec<u64> = ids[pos..pos + k].to_vec();
+        // some repeats of earlier items
+        for _ in 0..rng.random_range(0..3) {
+            chunk.push(ids[rng.random_range(0..pos + k)]);
+        }
+        sk.sketch_slice(&chunk).unwrap();
+        for d in &ids[pos..pos + k] {
+            let mut s1 = SuperMinHash::<F, u64, FnvHasher>::new(m, Default::default());
+            s1.sketch(d).unwrap();
+            for (pp, v) in s1.get_hsketch().iter().enumerate() {
+                let v = v.to_f64().unwrap();
+                if v < model[pp] {
+                    model[pp] = v;
+                }
+            }
+        }
+        pos += k;
+        nops += 1;
+        let r: Vec<f64> = sk.get_hsketch().iter().map(|v| v.to_f64().unwrap()).collect();
+        for pp in 0..m {
+            if r[pp].to_bits() != model[pp].to_bits() {
+                return (nops, Some(("C05/smh-not-the-join".into(), format!("SuperMinHash m={} after {} items: position {} holds {} but the minimum over single-item sketches is {}", m, pos, pp, r[pp], model[pp]))));
+            }
+        }
+    }
+    (nops, None)
+}
 
 pub fn run(rep: &mut Report) {
-    let _ = rep;
-    eprintln!("C05 not implemented yet");
+    quiet_panics();
+    rep.rule = "SetSketch: random operation histories (2-5 sketchers with identical parameters; ops: sketch chunk / item-wise, merge j into i, merge from a sketcher differing in exactly one of m,q,a,b) over parameter tuples b in {1.001,1.05,1.2,2}, m in {1,2,64,512,4096}, u16/u32, q small enough to clip; after EVERY operation the registers are compared with a shadow model = position-wise max of cached single-item sketches of everything the sketcher has seen, get_low_sketch <= min register; refused merges must leave registers, low, overflow count and cardinality unchanged; final merges in two random orders + idempotence. SuperMinHash f32/f64: sketch == position-wise min of single-item sketches after every chunk. Distinct = (parameters, seed) histories; non-trivial when >= 2 operations were checked".into();
+    let tuples: Vec<(P, bool)> = {
+        let mut v = Vec::new();
+        for &b in &[1.001, 1.05, 1.2, 2.0] {
+            for &m in &[1u64, 2, 64, 512, 4096] {
+                for &u16reg in &[true, false] {
+                    // (a, q): documented choice, a small-q choice that clips at q+1, and a large q with tiny b that clips at u16::MAX
+                    v.push((P { b, m, a: 20., q: 65534 }, u16reg));
+                    v.push((P { b, m, a: 5., q: 12 }, u16reg));
+                }
+            }
+        }
+        v.push((P { b: 1.0001, m: 64, a: 20., q: 1_000_000 }, true));
+        v.push((P { b: 1.0001, m: 64, a: 20., q: 1_000_000 }, false));
+        v
+    };
+    let reps_per = rep.tier.pick(40u64, 1200u64);
+    let seed = subseed(rep.seed, "C05/hist", &[]);
+    let mut jobs = Vec::new();
+    for (ti, (p, u16reg)) in tuples.iter().enumerate() {
+        for r in 0..reps_per {
+            if p.m >= 4096 && r >= reps_per.div_ceil(3) {
+                continue;
+            }
+            jobs.push((ti, *p, *u16reg, r));
+        }
+    }
+    let only = rep.only_cell.clone();
+    let res: Vec<(usize, P, bool, u64, Result<Hist, String>)> = jobs
+        .into_par_iter()
+        .filter(|(ti, _, _, r)| only.as_ref().map(|c| c == &format!("hist{}/{}", ti, r) || c == "hist").unwrap_or(true))
+        .map(|(ti, p, u16reg, r)| {
+            let s = mix(&[seed, ti as u64, r]);
+            let (len, maxitems) = if p.m >= 4096 { (25, 120) } else { (60, 400) };
+            let h = if u16reg { catch(move || history::<u16>(p, s, len, maxitems)) } else { catch(move || history::<u32>(p, s, len, maxitems)) };
+            (ti, p, u16reg, r, h)
+        })
+        .collect();
+    for (ti, p, u16reg, r, h) in res {
+        let cell = format!("hist{}/{}", ti, r);
+        let case0 = json!({"b": p.b, "m": p.m, "a": p.a, "q": p.q, "registers": if u16reg { "u16" } else { "u32" }});
+        match h {
+            Ok(h) => {
+                rep.evaluations += h.nops;
+                rep.count("setsketch.histories", 1);
+                if h.nops >= 2 {
+                    rep.distinct.insert(mix(&[ti as u64, r, u16reg as u64]));
+                }
+                let case = json!({"params": case0, "first_ops": h.ops});
+                if ti % 17 == 0 && r == 0 {
+                    rep.sample(case.clone());
+                }
+                if let Some((k, w)) = h.fail {
+                    rep.violation(&k, &cell, w, case);
+                }
+            }
+            Err(pn) => rep.violation("C05/panic", &cell, format!("panic: {}", pn), case0),
+        }
+    }
+    // SuperMinHash join
+    if rep.want("smh") {
+        let nj = rep.tier.pick(600u64, 20000u64);
+        let seed = subseed(rep.seed, "C05/smh", &[]);
+        let res: Vec<(u64, Result<(u64, Option<(String, String)>), String>, usize, usize)> = (0..nj)
+            .into_par_iter()
+            .map(|i| {
+                let mut rng = rng_from(mix(&[seed, i]));
+                let m = [1usize, 2, 7, 64, 300, 1000][rng.random_range(0..6)];
+                let n = rng.random_range(1..if m >= 300 { 300 } else { 2000 });
+                let s = mix(&[seed, i, 5]);
+                let r = if i % 2 == 0 { catch(move || smh_join::<f32>(m, s, n)) } else { catch(move || smh_join::<f64>(m, s, n)) };
+                (i, r, m, n)
+            })
+            .collect();
+        for (i, r, m, n) in res {
+            let case = json!({"sketcher": if i % 2 == 0 { "SuperMinHash<f32>" } else { "SuperMinHash<f64>" }, "m": m, "items": n});
+            match r {
+                Ok((nops, fail)) => {
+                    rep.evaluations += nops;
+                    rep.count("superminhash.join_checks", nops);
+                    rep.distinct.insert(mix(&[i, m as u64, n as u64, 3]));
+                    if i == 0 {
+                        rep.sample(case.clone());
+                    }
+                    if let Some((k, w)) = fail {
+                        rep.violation(&k, "smh", w, case);
+                    }
+                }
+                Err(pn) => rep.violation("C05/panic", "smh", format!("panic: {}", pn), case),
+            }
+        }
+    }
+    collect_ticks(rep);
+    rep.assumptions.push("single-item sketches produced by the real code are the building blocks of the shadow model".into());
+    rep.assumptions.push("a and b differing by less than 1e-12 relative are not judged: the code documents equality up to one relative f64::EPSILON".into());
 }
